@@ -81,3 +81,20 @@ func VerifUDPTransport(localPort, remotePort uint16, mtu int, onFrame func([]byt
 	s.SetMTU(mtu)
 	return t.runReceive, t.sendFrame, t.Close, nil
 }
+
+// VerifOutgoingTCPTransport builds the REAL outgoing UnicastTCPTransport towards 127.0.0.1:port with
+// the given persistency (a permanent face reconnects when its connection fails), a frame sink as its
+// link service and SetMTU(mtu) applied, and returns its receive loop (which dials, and re-dials) and
+// its Close.
+func VerifOutgoingTCPTransport(port uint16, persistency Persistency, mtu int, onFrame func([]byte)) (recv func(), closeT func(), err error) {
+	t, err := MakeUnicastTCPTransport(defn.MakeTCPFaceURI(4, "127.0.0.1", port), nil, persistency)
+	if err != nil {
+		return nil, nil, err
+	}
+	s := &verifFrameSink{onFrame: onFrame}
+	s.makeLinkServiceBase()
+	s.transport = t
+	t.setLinkService(s)
+	s.SetMTU(mtu)
+	return t.runReceive, t.Close, nil
+}
